@@ -9,7 +9,7 @@ leg 1  every tree -> BIFF12 rgce bytes (harness/src/build/xlsb.rs rgce_from_toke
        variants rotate) -> BrtFmla{Num,String,Bool,Error} record at varying positions + BrtName of a
        real .xlsb -> worksheet_formula / defined_names compared with Render(tree).
 sweep  every column 0..16383 through a PtgRef in real files and through verif::push_column.
-The BIFF8 (xls) layout and the stored-text formats (xlsx, ods) are not part of this step.
+The BIFF8 (xls) layout is checks/c14_xls.py, run at the end of this check.
 
 sensitivity: (bin/mutant C14 '<sed>@<file>', quick tier)
 sensitivity:  s/col = col \\/ 26 - 1;/col = col \\/ 26;/@src/utils.rs
@@ -58,3 +58,9 @@ def run(ctx):
     out = ctx.work + "/cols.in"
     open(out, "w").write("")
     ctx.replay("xlsbcols", out, extra=["--max", 16383])
+    # BIFF8 (xls) part and token-defined names (C16 xls part): checks/c14_xls.py
+    import importlib.util, os
+    sp = importlib.util.spec_from_file_location("c14_xls", os.path.join(os.path.dirname(os.path.abspath(__file__)), "c14_xls.py"))
+    m = importlib.util.module_from_spec(sp)
+    sp.loader.exec_module(m)
+    m.run(ctx)
